@@ -101,11 +101,11 @@ Proof. unfold d_mu, mu. rewrite d_reader_dig. reflexivity. Qed.
 Lemma round_sent_fst depth s : fst (round_sent depth s) = round depth s.
 Proof. reflexivity. Qed.
 
-Theorem round_core_ok depth s :
-  0 <= depth -> reachable depth s ->
+Theorem round_core_ok_inv depth s :
+  0 <= depth -> Inv s ->
   round_core (w_log (sw s)) (dig s) (snd (round_sent depth s), dig (fst (round_sent depth s))) = true.
 Proof.
-  intros D R. pose proof (reachable_Inv depth s D R) as I.
+  intros D I.
   rewrite round_sent_fst. unfold round_core. cbn [fst snd].
   pose proof (round_Inv depth s D I) as I'.
   destruct (nw_props depth _ _ D (round_nw depth s D I) I) as (_ & _ & L & _).
@@ -128,6 +128,11 @@ Proof.
       apply Z.eqb_eq in E4. destruct (net s); [reflexivity | simpl in E4; lia]. }
     rewrite (quiet depth s Ea A C). reflexivity.
 Qed.
+
+Theorem round_core_ok depth s :
+  0 <= depth -> reachable depth s ->
+  round_core (w_log (sw s)) (dig s) (snd (round_sent depth s), dig (fst (round_sent depth s))) = true.
+Proof. intros D R. apply round_core_ok_inv; [exact D | exact (reachable_Inv depth s D R)]. Qed.
 
 Lemma round_ok_core log d0 e : round_ok log d0 e = true -> round_core log d0 e = true.
 Proof.
